@@ -266,4 +266,8 @@ pub const HPKE_RFC: u32 = 9180;
             Zeroizing::new(GenericArray::default());"""),
                 ('Cargo.toml', 'generic-array = { version = "0.14", default-features = false }',
                  'generic-array = { version = "0.14", default-features = false, features = ["zeroize"] }')]),
+    dict(name='b-x25519-explicit-len-guard', props=['C09', 'C12', 'C13'],
+         edits=[(X25519, '        // Pubkeys must be 32 bytes\n        enforce_equal_len(Self::OutputSize::to_usize(), encoded.len())?;\n\n        // Copy to a fixed-size array', '        // Pubkeys must be 32 bytes\n        if encoded.len() != 32 {\n            return Err(HpkeError::IncorrectInputLength(32, encoded.len()));\n        }\n\n        // Copy to a fixed-size array')]),
+    dict(name='b-nist-explicit-len-guard-eq', props=['C09', 'C12', 'C13'],
+         edits=[(NIST, '                    // Check the length\n                    enforce_equal_len(Self::OutputSize::to_usize(), encoded.len())?;\n', '                    // Check the length\n                    if !(encoded.len() == Self::size()) {\n                        return Err(HpkeError::IncorrectInputLength(Self::size(), encoded.len()));\n                    }\n')]),
 ]
